@@ -211,6 +211,15 @@ class PoolWorld:
                     return ("done", tag)
                 if variant == "retexc":
                     return ValueError("returned as a value, never raised")
+                if variant == "yield":
+                    try:
+                        await asyncio.sleep(0)  # a zero-length suspension
+                    except asyncio.CancelledError:
+                        w.cancel_seen[key] += 1
+                        w.point("w_cancel", key, tag)
+                        how = "cancelled"
+                        raise
+                    w.point("w_yielded", key, tag)
                 stage = 0
                 while True:
                     f = w.loop.create_future()
@@ -453,7 +462,8 @@ class PoolWorld:
         return not self.loop._ready
 
     def ready(self):
-        return self.loop._ready
+        timers = [h for h in self.loop._scheduled if not h._cancelled]
+        return list(self.loop._ready) + timers if timers else self.loop._ready
 
     def roots(self):
         tasks = sorted(self.loop.live_tasks(), key=lambda t: t.get_name())
